@@ -66,7 +66,10 @@ func newRetry(ctx context.Context, p *txProbe, rd time.Duration, rc uint, cbErrA
 	var tx *transactions.RetryTransaction
 	tx = transactions.NewRetryTransaction(ctx, rd, rc, func(d interface{}) error {
 		n := atomic.AddInt32(&p.callbacks, 1)
-		if atomic.LoadInt32(&p.doneSeen) == 1 {
+		// A retry callback that starts when Done is already closed is a retry after completion
+		// (Done is closed and callbacks are started under the transaction's own lock, so on
+		// correct code this is never observed, whatever the schedule).
+		if atomic.LoadInt32(&p.doneSeen) == 1 || (tx != nil && isDone(tx)) {
 			atomic.AddInt32(&p.cbAfter, 1)
 		}
 		if cbErrAt > 0 && n == cbErrAt {
